@@ -229,6 +229,43 @@ def run_sweep_case(inst, p):
     return out
 
 
+def run_restrict_twice_case(cfg, u0b):
+    """three levels (a zp_runs configuration): restrict down the hierarchy, let a new initial value arrive on the finest level, restrict
+    down again; returns what the middle and the coarsest level hold"""
+    zp.set_modulus(cfg['P'])
+    zp.install_generators()
+    kind = cfg['kind']
+    descs = [level_description(L, kind) for L in cfg['levels']]
+    keys = [d[3] for d in descs]
+    try:
+        pp = {k: [d[1][k] for d in descs] for k in descs[0][1]}
+        swp = {k: [d[2][k] for d in descs] for k in descs[0][2]}
+        T = cfg['transfers']
+        desc = dict(problem_class=descs[0][0], problem_params=pp, sweeper_class=sweeper_class(kind), sweeper_params=swp,
+                    level_params=dict(dt=dt_float(cfg['levels'][0]['dt'])), step_params=dict(maxiter=1),
+                    base_transfer_class=ZpBaseTransfer, base_transfer_params=[dict(Rc=T[0]['Rc'], Pc=T[0]['Pc'])] + [dict(Rc=t['Rc'], Pc=t['Pc']) for t in T],
+                    space_transfer_class=ZpSpaceTransfer, space_transfer_params=[dict(Rs=T[0]['Rs'], Ps=T[0]['Ps'])] + [dict(Rs=t['Rs'], Ps=t['Ps']) for t in T])
+        S = Step(desc)
+        LF, LG, LH = S.levels
+        M = cfg['levels'][0]['M']
+        U = cfg['U']
+        load_level(LF, cfg['u_init'], U, [])
+        for L in (LG, LH):
+            L.status.time = 0.0
+        S.transfer(source=LF, target=LG)
+        S.transfer(source=LG, target=LH)
+        # a new initial value arrives on the finest level (as a receive from the previous step does)
+        LF.u[0] = zp.zmesh(list(u0b))
+        LF.f[0] = LF.prob.eval_f(LF.u[0], 0.0)
+        S.transfer(source=LF, target=LG)
+        S.transfer(source=LG, target=LH)
+        return dict(mid=dict(u0=LG.u[0].tolist(), U=vecs(LG.u[1:]), tau=vecs(LG.tau)),
+                    coarse=dict(u0=LH.u[0].tolist(), U=vecs(LH.u[1:]), tau=vecs(LH.tau)))
+    finally:
+        for k in keys:
+            zp.REG.pop(k, None)
+
+
 def run_transfer_case(inst, p):
     zp.set_modulus(p)
     zp.install_generators()
